@@ -74,6 +74,8 @@ def make_block_text(rng, b, layout):
     nl = layout['newline']
     ind = layout['indent']
     star = ind + ' *'
+    sep = layout.get('ann_sep', ' ')            # what stands between two annotations of one line
+    cont = '\t\t' if layout.get('cont_tabs') else '    '      # indentation of a continuation line that carries annotations
     lines = ['/**']
     ident = b['name'] + (':' if (b['anns'] or layout['colon']) else '')
     if b['anns']:
@@ -82,7 +84,7 @@ def make_block_text(rng, b, layout):
             for a in b['anns'][1:]:
                 lines.append('%s   %s' % (star, render_ann(a)))
         else:
-            lines.append('%s %s %s' % (star, ident, ' '.join(render_ann(a) for a in b['anns'])))
+            lines.append('%s %s %s' % (star, ident, sep.join(render_ann(a) for a in b['anns'])))
     else:
         lines.append('%s %s' % (star, ident))
     for p in b['params']:
@@ -91,13 +93,13 @@ def make_block_text(rng, b, layout):
             if layout['wrap_anns'] and len(p['anns']) > 1:
                 lines.append(head + ' ' + render_ann(p['anns'][0]))
                 for a in p['anns'][1:-1]:
-                    lines.append('%s    %s' % (star, render_ann(a)))
-                lines.append('%s    %s%s' % (star, render_ann(p['anns'][-1]), ':' if p['desc'] else ''))
+                    lines.append('%s%s%s' % (star, cont, render_ann(a)))
+                lines.append('%s%s%s%s' % (star, cont, render_ann(p['anns'][-1]), ':' if p['desc'] else ''))
                 if p['desc']:
                     for l in p['desc']:
                         lines.append('%s    %s' % (star, l))
                 continue
-            head += ' ' + ' '.join(render_ann(a) for a in p['anns']) + (':' if (p['desc'] or layout['colon']) else '')
+            head += ' ' + sep.join(render_ann(a) for a in p['anns']) + (':' if (p['desc'] or layout['colon']) else '')
         if p['desc']:
             lines.append(head + ' ' + p['desc'][0])
             for l in p['desc'][1:]:
@@ -110,7 +112,7 @@ def make_block_text(rng, b, layout):
         t = tags.pop(0)
         head = '%s @returns:' % star
         if t.get('anns'):
-            head += ' ' + ' '.join(render_ann(a) for a in t['anns']) + (':' if t['desc'] else '')
+            head += ' ' + sep.join(render_ann(a) for a in t['anns']) + (':' if t['desc'] else '')
         if t['desc']:
             lines.append(head + ' ' + t['desc'][0])
             for l in t['desc'][1:]:
@@ -127,7 +129,7 @@ def make_block_text(rng, b, layout):
         for t in tags:
             head = '%s %s:' % (star, t['name'])
             if t.get('anns'):
-                head += ' ' + ' '.join(render_ann(a) for a in t['anns']) + (':' if t['desc'] else '')
+                head += ' ' + sep.join(render_ann(a) for a in t['anns']) + (':' if t['desc'] else '')
             if t.get('value'):
                 head += ' ' + t['value'] + (':' if t['desc'] else '')
             if t['desc']:
@@ -137,6 +139,9 @@ def make_block_text(rng, b, layout):
             else:
                 lines.append(head)
     lines.append(ind + ' */')
+    if layout.get('trailing'):
+        # blanks at the end of lines that carry text (editors leave them): they are not part of any text
+        lines = [l if (k in (0, len(lines) - 1) or l.strip() == '*') else l + rng.choice(['', ' ', '  ', '\t', ' \t']) for k, l in enumerate(lines)]
     return nl.join(lines)
 
 
@@ -368,7 +373,8 @@ def main(tier, seed):
         base_layout = dict(newline='\n', indent='', colon=True, wrap_anns=False)
         layouts = [base_layout, dict(base_layout, newline='\r\n'), dict(base_layout, newline='\r'), dict(base_layout, indent='    '),
                    dict(base_layout, indent='\t'), dict(base_layout, wrap_anns=True), dict(base_layout, colon=False, wrap_anns=rng.random() < 0.5),
-                   dict(base_layout, returns_as_param=True)]
+                   dict(base_layout, returns_as_param=True), dict(base_layout, trailing=True), dict(base_layout, trailing=True, wrap_anns=True),
+                   dict(base_layout, ann_sep=rng.choice(['\t', '  ', ' \t '])), dict(base_layout, wrap_anns=True, cont_tabs=True)]
         first = None
         for lay in layouts:
             if lay.get('returns_as_param') and any(t['name'] == 'Returns' and '' in t['desc'] for t in b['tags']):
